@@ -166,6 +166,32 @@ def run_case(case, agg):
         if d:
             w.update({"compared": "new bytes at a path whose old content is in the cache vs the same bytes with an empty cache", "field": d[0], "cold": str(d[1])[:300], "warm": str(d[2])[:300]})
             return f"KNOWNCLASS-same-path-new-bytes:{d[0]}", w
+    # ---- labelled sub-scenario: same path, same size, modified within the same second (only the sub-second mtime differs)
+    if case.get("rewrite_same_size"):
+        name, text, _ = case["files"][0]
+        newtext = case["rewrite_same_size"]
+        j0 = {"text": f"${name}[*][yes()]", "mode": "csvpaths"}
+        sdir = os.path.join(base, "samesize")
+        os.makedirs(sdir)
+        t0 = 1893456000 * 10**9
+        with open(os.path.join(sdir, name), "w", newline="") as f:
+            f.write(text)
+        os.utime(os.path.join(sdir, name), ns=(t0 + 1000, t0 + 1000))
+        run_process([j0], sdir, agg)
+        with open(os.path.join(sdir, name), "w", newline="") as f:
+            f.write(newtext)
+        os.utime(os.path.join(sdir, name), ns=(t0 + 400_000_000, t0 + 400_000_000))
+        stale = run_process([j0], sdir, agg)[0]
+        fdir = os.path.join(base, "samesize-fresh")
+        os.makedirs(fdir)
+        with open(os.path.join(fdir, name), "w", newline="") as f:
+            f.write(newtext)
+        fresh = run_process([j0], fdir, agg)[0]
+        agg.count("same_size_same_second_rewrites")
+        d = first_diff(fresh, stale)
+        if d:
+            w.update({"compared": "same-size bytes written 0.4 s later at a path whose old content is in the cache vs the same bytes with an empty cache", "field": d[0], "cold": str(d[1])[:300], "warm": str(d[2])[:300]})
+            return f"same-path-same-size-same-second:{d[0]}", w
     shutil.rmtree(base, ignore_errors=True)
     return None, None
 
@@ -189,6 +215,12 @@ def make_case(seed, shard, i):
         rows = rows[: max(1, len(rows) // 2)] if r.random() < 0.5 else rows + [["9", "9", "more", "rows"]] * 3
         rows[0] = [h + "X" for h in rows[0]]
         case["rewrite"] = lang.rows_to_text(rows)
+    else:
+        rows = [list(x) for x in files[0][2]]
+        rows[0] = [(h[:-1] + ("Z" if h[-1] != "Z" else "Y")) if h and h[-1].isalnum() else h for h in rows[0]]
+        t = lang.rows_to_text(rows)
+        if t != files[0][1] and len(t.encode()) == len(files[0][1].encode()):
+            case["rewrite_same_size"] = t
     return case
 
 
